@@ -98,6 +98,29 @@ class _FuncAnalysis:
                 self.k(ch)
         return out
 
+    def _rank_key(self, key) -> bool:
+        """key=<seq>.index, or key=<table>.__getitem__ / lambda x: <table>[x] with <table> = {name: i for i, name in enumerate(...)}
+        built in the same function: distinct elements get distinct ranks, so the sort cannot tie."""
+        if isinstance(key, ast.Attribute) and key.attr == "index":
+            return True
+        tbl = None
+        if isinstance(key, ast.Attribute) and key.attr == "__getitem__" and isinstance(key.value, ast.Name):
+            tbl = key.value.id
+        elif isinstance(key, ast.Lambda) and isinstance(key.body, ast.Subscript) and isinstance(key.body.value, ast.Name) and key.args.args \
+                and isinstance(key.body.slice, ast.Name) and key.body.slice.id == key.args.args[0].arg:
+            tbl = key.body.value.id
+        if tbl is None:
+            return False
+        for n in ast.walk(self.fi.node):
+            if isinstance(n, ast.Assign) and len(n.targets) == 1 and isinstance(n.targets[0], ast.Name) and n.targets[0].id == tbl and isinstance(n.value, ast.DictComp):
+                dc = n.value
+                g = dc.generators[0] if len(dc.generators) == 1 else None
+                if g is not None and isinstance(g.iter, ast.Call) and isinstance(g.iter.func, ast.Name) and g.iter.func.id == "enumerate" and isinstance(g.target, ast.Tuple) and len(g.target.elts) == 2 \
+                        and isinstance(g.target.elts[0], ast.Name) and isinstance(dc.value, ast.Name) and dc.value.id == g.target.elts[0].id \
+                        and isinstance(g.target.elts[1], ast.Name) and isinstance(dc.key, ast.Name) and dc.key.id == g.target.elts[1].id:
+                    return True
+        return False
+
     def rep(self, node, what):
         self.oa.report(self.fi.q, node, what + self.ctxnote)
 
@@ -270,6 +293,8 @@ class _FuncAnalysis:
             injective = key is None or (isinstance(key, ast.Name) and key.id in ("str", "repr")) or (
                 isinstance(key, ast.Lambda) and isinstance(key.body, ast.Tuple) and key.body.elts and isinstance(key.body.elts[-1], ast.Name)
                 and key.args.args and key.body.elts[-1].id == key.args.args[0].arg)  # lambda x: (..., x): the element itself breaks every tie
+            if not injective and key is not None:
+                injective = self._rank_key(key)
             if anyset and not injective:
                 return frozenset({ORD})
             return E0
